@@ -42,12 +42,11 @@ Definition d_roas (simple : list N) (aggr : list (N * list N)) : roas :=
 Definition aggr_view (l : list (N * rinfo)) : list (N * list N) := map (fun '(a, i) => (a, isort (ri_auths i))) l.
 Definition sorted_view (l : list (N * list N)) : list (N * list N) := map (fun '(a, x) => (a, isort x)) l.
 
-(** The renewal of a key-roll activation is modelled as the tree has it ([renewal]: nothing filtered, finding F04c).
-    If the repair proposed for F04c is committed, [renewal_fixed (tbl (d_res d)) id id (fun _ _ => dummy) (d_cert d) r]
-    is the model of the repaired code ([d_cert] of a renewal step is the NEW key's certificate). *)
+(** The renewal of a key-roll activation is [renewal_fixed] under the NEW key's certificate ([d_cert] of a renewal
+    step), the code of record since the repair of F04c (0ff85b31). *)
 Definition d_model_updates (d : dcase) : option rupd :=
   let r := d_roas (d_pre_simple d) (d_pre_aggr d) in
-  if d_renew d then Some (renewal id id (fun _ _ => dummy) r)
+  if d_renew d then Some (renewal_fixed (tbl (d_res d)) id id (fun _ _ => dummy) (d_cert d) r)
   else create_updates (tbl (d_asn d)) (tbl (d_res d)) id id (fun _ _ => dummy) r (d_routes d) (d_cert d) (d_deagg d) (d_agg d).
 
 Definition derive_agrees (d : dcase) : bool :=
@@ -61,15 +60,16 @@ Definition derive_agrees (d : dcase) : bool :=
       && seq_by aspa_eqb (aggr_view (ro_aggr r')) (sorted_view (d_post_aggr d))
   end.
 
-(** What the theorems of L1 say about the state the IMPLEMENTATION reached: never simple and aggregate ROAs
-    side by side; after a derivation the ROAs carry exactly the configured payloads the certificate holds,
-    a simple ROA carries its own payload, an aggregate ROA payloads of its AS only. *)
+(** What the theorems of L1 say about the state the IMPLEMENTATION reached: never simple and aggregate ROAs side by side;
+    after a derivation the ROAs carry exactly the configured payloads the certificate holds; after the renewal of a
+    key-roll activation exactly the payloads carried before that the new key's certificate holds
+    ([renewal_fixed_exact]); a simple ROA carries its own payload, an aggregate ROA payloads of its AS only. *)
 Definition derive_ok (d : dcase) : bool :=
   (match d_post_simple d, d_post_aggr d with [], _ | _, [] => true | _, _ => false end)
   && forallb (fun '(a, l) => match l with [] => false | _ => forallb (fun p => tbl (d_asn d) p =? a) l end) (d_post_aggr d)
-  && (d_renew d
-      || seq_by N.eqb (d_post_simple d ++ flat_map snd (d_post_aggr d))
-                      (relevant (tbl (d_res d)) (d_routes d) (d_cert d))).
+  && seq_by N.eqb (d_post_simple d ++ flat_map snd (d_post_aggr d))
+       (if d_renew d then filter (held (tbl (d_res d)) (d_cert d)) (d_pre_simple d ++ flat_map snd (d_pre_aggr d))
+        else relevant (tbl (d_res d)) (d_routes d) (d_cert d)).
 
 (** ** The case *)
 Record case := mkCase {
